@@ -99,8 +99,9 @@ def gen_vals(rng, n, dtype):
 def gen_rhs(rng, n):
     kind = rng.choice(["arr", "arr", "arr", "live", "live", "num", "nd", "qty", "vec"])
     unitrel = rng.choice(["same", "same", "compatible", "incompatible", "none"])
+    # "one": the operand has length 1 and is broadcast over x (fresh Array / ndarray / Quantity operands only)
     return {"kind": kind, "unitrel": unitrel, "vals": gen_vals(rng, n, "f8"), "num": float(rng.choice([2, 4, 0.5, 3, 1])),
-            "pick": rng.randrange(64)}
+            "pick": rng.randrange(64), "one": rng.random() < 0.15}
 
 
 def generate(rng, tier):
@@ -475,6 +476,9 @@ def execute(case, stats):
                         yvals = comps
                     else:
                         v = np.array((rhs["vals"] * 4)[:nx], dtype=float)
+                        if rhs.get("one") and nx > 1:
+                            v = v[:1]
+                            stats.inc("probe.operand_of_length_one_broadcast")
                         y = osy.Array(values=v.copy(), unit=un) if rk == "arr" else v.copy() * osy.units(un)
                         yvals = [v] * len(xl)
                 elif rk == "num":
@@ -483,6 +487,9 @@ def execute(case, stats):
                     yvals = [np.full(nx, float(y))] * len(xl)
                 else:
                     v = np.array((rhs["vals"] * 4)[:nx], dtype=float)
+                    if rhs.get("one") and nx > 1:
+                        v = v[:1]
+                        stats.inc("probe.operand_of_length_one_broadcast")
                     y = v.copy()
                     yu = U.of("")
                     yvals = [v] * len(xl)
